@@ -25,6 +25,9 @@ CLI_ROUTES = ('writep8', 'luamin', 'luafmt', 'luafmt-overwrite', 'build',
               'build-minify', 'luamin-2files', 'writep8-2files')
 EXT = {'p8': '.p8', 'png': '.p8.png'}
 
+GLYPH_CODE = (b'-- glyphs \x8b\x91\x94\x83\n'
+              b'function _update() if btn(\x8b) then x\x80=1 end end\n'
+              b's="\x99\xe3\x81"\nm17=17\n')
 CODE_SAMPLES = (
     b'-- title\n-- by me\nfunction _init()\n x=1\n if (x>0) x+=1\n ?"hi"\n'
     b'end\nm17=17\nm18={1,2,"s"}\nlocal function f(a,...) return a end\n',
@@ -211,6 +214,8 @@ def _cart_spec(rng):
     code = rng.choice(CODE_SAMPLES)
     if rng.random() < 0.15:
         code = deep_code(rng.choice([5, 20, 40]))
+    elif rng.random() < 0.2:
+        code = GLYPH_CODE
     return {
         'version': rng.choice([8, 16, 29, 33]),
         'code': core.enc_bytes(code),
@@ -862,13 +867,21 @@ def _area(fired):
 
 def plan(prop, tier):
     if tier == 'quick':
-        return {'runs': len(MATRIX), 'wall_cap': 900, 'chunk': 1}
+        return {'runs': len(MATRIX), 'wall_cap': 900, 'chunk': 1,
+                'opt_runs': 9}
     return {'runs': 4 * len(MATRIX), 'wall_cap': 4 * 3600, 'chunk': 1}
 
 
 def jobs(prop, tier, seed, runs):
     out = []
-    for i in range(runs):
+    idxs = range(runs)
+    if runs < len(MATRIX):
+        # a reduced run (configuration slices): spread over the whole matrix,
+        # shifted by the seed so that different slices see different rows
+        idxs = [(int(j * len(MATRIX) / runs) + 5 * seed +
+                 len(os.environ.get('PICOSIM_CONFIG', ''))) % len(MATRIX)
+                for j in range(runs)]
+    for i in idxs:
         full = tier == 'thorough' or (i < len(MATRIX) and
                                       MATRIX[i] in REPRESENTATIVE and
                                       MATRIX.index(MATRIX[i]) == i)
@@ -881,7 +894,7 @@ def jobs(prop, tier, seed, runs):
             ncr = 1
         for j in range(ncr):
             out.append({'kind': 'c11-crash', 'seed': seed, 'index': i,
-                        'part': j, 'n': 14 if tier == 'quick' else 40,
+                        'part': j, 'n': 11 if tier == 'quick' else 40,
                         'tier': tier})
         out.append({'kind': 'c11-internal', 'seed': seed, 'index': i,
                     'tier': tier})
@@ -911,9 +924,9 @@ def run_job(job):
         else:
             ks = sorted(set(
                 [0, 1, 2, total - 1, total - 2] +
-                [int(x * (total - 1) / 23) for x in range(24)] +
+                [int(x * (total - 1) / 17) for x in range(18)] +
                 [core.derive_rng(job['seed'], 'C11-k', job['index'] * 64 + x)
-                 .randrange(total) for x in range(8)]))
+                 .randrange(total) for x in range(6)]))
             ks = [k for k in ks if 0 <= k < total]
         frng = core.derive_rng(job['seed'], 'C11-wf', job['index'])
         for k in ks:
